@@ -478,6 +478,14 @@ func GenValueText(r *rand.Rand, depth int) string {
 var FloatBoundTexts = []string{"-1.7976931348623157e308", "-1e308", "-2.5e3", "-1.5", "-0.0", "0.0", "5e-324", "1e-7", "0.0001", "0.1", "0.30000000000000004", "1.5", "2.5E+3", "100000.0",
 	"1000000.0", "123456789.25", "1e21", "1.0e+22", "1e308", "1.7976931348623157e308"}
 
+// HeldTypes: one or more types per constructor of the fragment, as they are held by literal values
+var HeldTypes = []string{"Any", "Integer", "Integer[1, 2]", "Integer[default, 5]", "Float[1.5, 2.5e3]", "Float[default, 0.1]", "String", "String[1, 10]", "Boolean[true]", "Enum['a', 'b']",
+	"Enum['a', 'B', true]", "Regexp[/a\\/b/]", "Pattern[/a/, 'b+']", "Optional[String]", "Optional['x']", "NotUndef['y']", "Type[Integer[1, 2]]", "Sensitive[String]", "Iterable[Integer]",
+	"Iterator[String]", "Variant[Integer, String, Undef]", "Array[String, 1, 3]", "Array[0, 0]", "Hash[String, Integer, 1, 5]", "Hash[0, 0]", "Collection[1, 2]", "Tuple[String, Integer, 1, 5]",
+	"Tuple[String]", "Tuple[0, 0]", "Struct[{a => Integer, Optional[b] => String, 'c d' => Optional[Float], NotUndef[e] => Any}]", "Struct", "Callable[String, Integer, 1, 2]",
+	"Callable[[String], Integer]", "Callable[0, 0, Callable[1, 1]]", "Callable[String, Optional[Callable]]", "Callable", "Runtime['ruby', 'x']", "Runtime['ruby', 'x', Regexp[/a/]]",
+	"TypeReference['My::Thing']", "My::Thing", "Foo", "Data", "Default", "Array[Struct[{a => Callable[[], Undef]}], 0, 1]"}
+
 var fragPlain = []string{"Any", "Unit", "Undef", "Default", "Scalar", "ScalarData", "Numeric", "Data", "RichData", "Binary", "Float", "String",
 	"Callable", "Struct", "Timespan", "Timestamp", "SemVer", "SemVerRange", "URI", "Runtime", "Object", "Init", "TypeSet", "Tuple",
 	"Integer", "Boolean", "Enum", "Regexp", "Pattern", "Variant", "Array", "Hash", "Collection", "Optional", "NotUndef", "Type", "Sensitive", "Iterable", "Iterator"}
